@@ -286,6 +286,29 @@ def run_check(spec, tier, seed, budget_scale=1.0, out=sys.stdout):
             violations.append(('broken', write_replay(pid, 'broken', payload),
                                'theorem or correspondence no longer checks', True))
 
+    # ---- 7b. monitor the libm hypotheses used by theorems on every call the implementation made ----
+    libm_mon = {'calls': 0, 'cos_zero_one': 0, 'sin_zero_zero': 0, 'cos_range': 0, 'tanh_range': 0, 'violations': []}
+    ONE = fb.bits(1.0)
+    for c in cases:
+        for (f, a, b_, r_) in dbg[c.cid][1]:
+            libm_mon['calls'] += 1
+            fa, fr = fb.fl(a), fb.fl(r_)
+            if f == 0:
+                libm_mon['cos_range'] += 1
+                if fa == fa and abs(fa) != float('inf') and not (fr == fr and abs(fr) <= 1.0):
+                    libm_mon['violations'].append(['cos_range', a, r_])
+                if a == 0:
+                    libm_mon['cos_zero_one'] += 1
+                    if r_ != ONE: libm_mon['violations'].append(['cos_zero_one', a, r_])
+            elif f == 1 and a == 0:
+                libm_mon['sin_zero_zero'] += 1
+                if r_ != 0: libm_mon['violations'].append(['sin_zero_zero', a, r_])
+            elif f == 6:
+                libm_mon['tanh_range'] += 1
+                if fa == fa and not (fr == fr and abs(fr) <= 1.0):
+                    libm_mon['violations'].append(['tanh_range', a, r_])
+    libm_mon['violations'] = libm_mon['violations'][:5]
+
     # ---- 8. evidence ----
     sigs = set()
     for c in cases:
@@ -334,6 +357,7 @@ def run_check(spec, tier, seed, budget_scale=1.0, out=sys.stdout):
             'libm_calls_recorded': hstats.get('debug', {}).get('libm_calls', 0),
             'sincos_mismatch': hstats.get('debug', {}).get('sincos_mismatch', 0) + hstats.get('release', {}).get('sincos_mismatch', 0),
             's3_legs': getattr(spec, 'S3_LEGS', []),
+            'libm_hypotheses_monitor': libm_mon,
             'coq_eval_wall_s': round(cwall, 1), 'proof_wall_s': round(pr['wall_s'], 1),
         },
         'assumptions': spec.ASSUMPTIONS,
